@@ -1,7 +1,7 @@
 PROP = dict(
     cover_pkgs=["pdu"],
     gen=["layouts"],
-    proof_files=["Properties/C13.v", "Proofs/PduStableProofs.v", "Proofs/PduRoundtripProofs.v"],
+    proof_files=["Properties/C13.v", "Proofs/PduStableProofs.v", "Proofs/PduRoundtripProofs.v", "Proofs/PduHazardProofs.v"],
     model_files=["Model/Pdu.v", "Model/PduRun.v"],
     trusted=["Gen/PduLayouts.v (registry dump)", "Go value -> Gallina term printer (maps printed key-sorted)"],
     assumptions=["Go map iteration order is arbitrary: modelled as 'any permutation of the entries reaches the encoder'",
